@@ -100,7 +100,7 @@ def random_jobs(ctx, prop, fns, count):
         n = len(A)
         job = dict(fn=fn, prop=prop, R0=A.tolist(), seed=rng.randrange(2 ** 31), src="random")
         if rng.random() < 0.4:
-            job["dtype"] = rng.choice(["int", "int32", "uint8", "float32"])
+            job["dtype"] = rng.choice(["int", "int32", "uint8", "float32", "bool"])
         if rng.random() < 0.25:
             job["layout"] = rng.choice(["F", "view"])
         if mask:
